@@ -371,3 +371,158 @@ pub fn run_head(resp: bool, buf: &[u8]) -> (String, V, Result<(), String>) {
     // the implementation side always claims httparse's contract (first component 1)
     (coq, V::T("head", vec![V::b(true), class]), verdict)
 }
+
+// ------------------------------------------------------------------ typed headers: shared parsers
+// (coq/theories/Panic/TypedHdr.v)
+
+use actix_web::http::header::{
+    AcceptEncoding, ContentRangeSpec, EntityTag, Header as _, IfNoneMatch, IfRange, Preference, QualityItem,
+};
+
+fn v_etag(e: &EntityTag) -> V {
+    V::T("etag", vec![V::b(e.weak), V::h(e.tag())])
+}
+
+/// `Quality` keeps its integer private: read it back from its Display form ("0", "1", "0.d[d[d]]")
+fn qnum(txt: &str) -> u64 {
+    match txt {
+        "0" => 0,
+        "1" => 1000,
+        _ => {
+            let mut d = txt.trim_start_matches("0.").to_string();
+            while d.len() < 3 {
+                d.push('0');
+            }
+            d.parse().unwrap_or(9999)
+        }
+    }
+}
+
+/// std's f32 parsing + `Quality::try_from` are outside the model: the case carries what they answer
+/// on every candidate q-value = every suffix of at most 5 bytes of a (right-trimmed) list item,
+/// probed through `"x;q=<cand>".parse::<QualityItem<String>>()`.
+pub fn q_table(items: &[&[u8]]) -> Vec<(Vec<u8>, u64)> {
+    let mut out: Vec<(Vec<u8>, u64)> = vec![];
+    for it in items {
+        let s = match std::str::from_utf8(it) {
+            Ok(s) if s.is_ascii() => s.trim_end(),
+            _ => continue,
+        };
+        for k in 0..=s.len().min(5) {
+            let cand = &s[s.len() - k..];
+            if cand.contains(';') || out.iter().any(|(c, _)| c == cand.as_bytes()) {
+                continue;
+            }
+            if let Ok(qi) = format!("x;q={cand}").parse::<QualityItem<String>>() {
+                out.push((cand.as_bytes().to_vec(), qnum(&qi.quality.to_string())));
+            }
+        }
+    }
+    out
+}
+
+pub fn coq_qtab(t: &[(Vec<u8>, u64)]) -> String {
+    coq_list(t, |(c, q)| format!("({}, {})", coq_bytes(c), q))
+}
+
+/// EntityTag::from_str; independent oracle: an accepted tag re-displays as the input and holds
+/// only etagc bytes (RFC 7232 section 2.3)
+pub fn run_etag(s: &[u8]) -> (V, Result<(), String>) {
+    let s = match std::str::from_utf8(s) {
+        Ok(s) => s,
+        Err(_) => return (V::t0("notutf8"), Ok(())),
+    };
+    match EntityTag::from_str(s) {
+        Err(_) => (V::t0("err"), Ok(())),
+        Ok(e) => {
+            let ok = e.to_string() == s && e.tag().bytes().all(|c| c == 0x21 || (0x23..=0x7e).contains(&c) || c >= 0x80);
+            (v_etag(&e), if ok { Ok(()) } else { Err(format!("accepted entity-tag {e:?} does not re-display as the input {s:?}")) })
+        }
+    }
+}
+
+pub fn run_qitem(s: &[u8]) -> (V, Result<(), String>) {
+    let s = match std::str::from_utf8(s) {
+        Ok(s) => s,
+        Err(_) => return (V::t0("notutf8"), Ok(())),
+    };
+    match s.parse::<QualityItem<String>>() {
+        Err(_) => (V::t0("err"), Ok(())),
+        Ok(qi) => {
+            let q = qnum(&qi.quality.to_string());
+            (V::T("qi", vec![V::h(&qi.item), V::n(q)]), if q <= 1000 { Ok(()) } else { Err(format!("quality {q} out of 0..=1000")) })
+        }
+    }
+}
+
+fn req_with(name: HeaderName, vals: &[Vec<u8>]) -> Option<actix_web::HttpRequest> {
+    let mut req = actix_web::test::TestRequest::default();
+    for v in vals {
+        req = req.append_header((name.clone(), HeaderValue::from_bytes(v).ok()?));
+    }
+    Some(req.to_http_request())
+}
+
+pub fn run_inm(vals: &[Vec<u8>]) -> Option<V> {
+    let req = req_with(header::IF_NONE_MATCH, vals)?;
+    Some(match IfNoneMatch::parse(&req) {
+        Err(_) => V::t0("err"),
+        Ok(IfNoneMatch::Any) => V::t0("any"),
+        Ok(IfNoneMatch::Items(l)) => V::T("items", vec![V::L(l.iter().map(v_etag).collect())]),
+    })
+}
+
+pub fn run_ifrange(v: &Option<Vec<u8>>) -> Option<V> {
+    let vals: Vec<Vec<u8>> = v.iter().cloned().collect();
+    let req = req_with(header::IF_RANGE, &vals)?;
+    Some(match IfRange::parse(&req) {
+        Ok(IfRange::EntityTag(e)) => v_etag(&e),
+        _ => V::t0("noetag"),
+    })
+}
+
+pub fn run_ae(vals: &[Vec<u8>]) -> Option<(V, Result<(), String>)> {
+    let req = req_with(header::ACCEPT_ENCODING, vals)?;
+    Some(match AcceptEncoding::parse(&req) {
+        Err(_) => (V::t0("err"), Ok(())),
+        Ok(AcceptEncoding(l)) => {
+            let mut verdict = Ok(());
+            let items = l
+                .iter()
+                .map(|qi| {
+                    let q = qnum(&qi.quality.to_string());
+                    if q > 1000 {
+                        verdict = Err(format!("quality {q} out of 0..=1000"));
+                    }
+                    match &qi.item {
+                        Preference::Any => V::T("any", vec![V::n(q)]),
+                        Preference::Specific(e) => V::T("enc", vec![V::h(e.to_string()), V::n(q)]),
+                    }
+                })
+                .collect();
+            (V::T("ae", vec![V::L(items)]), verdict)
+        }
+    })
+}
+
+/// ContentRangeSpec::from_str; independent oracle: an accepted byte range has first <= last
+pub fn run_crange(s: &[u8]) -> (V, Result<(), String>) {
+    let s = match std::str::from_utf8(s) {
+        Ok(s) => s,
+        Err(_) => return (V::t0("notutf8"), Ok(())),
+    };
+    match ContentRangeSpec::from_str(s) {
+        Err(_) => (V::t0("err"), Ok(())),
+        Ok(ContentRangeSpec::Unregistered { unit, resp }) => (V::T("unreg", vec![V::h(unit), V::h(resp)]), Ok(())),
+        Ok(ContentRangeSpec::Bytes { range, instance_length }) => {
+            let verdict = match range {
+                Some((a, b)) if b < a => Err(format!("accepted Content-Range {a}-{b} with last < first")),
+                _ => Ok(()),
+            };
+            (
+                V::T("bytes", vec![V::opt(range, |(a, b)| V::T("r", vec![V::n(a), V::n(b)])), V::opt(instance_length, V::n)]),
+                verdict,
+            )
+        }
+    }
+}
